@@ -548,6 +548,25 @@ def rule_name_cases() -> list[dict]:
     return cases
 
 
+def skip_after_squash_cases() -> list[dict]:
+    """Deterministic: the skip-until trigger whose stop set is a choice with case-insensitive literals, written in
+    place or behind a rule, under pass lists in which "squash_choice" (or "inline silent") runs BEFORE "skip", so
+    that `_skip` meets the product of an earlier pass."""
+    cases = []
+    stops = ('(^"b" | "ab")', '(^"ab" | "b")', '("b" | ^"a")', "stop", "(stop | \"ab\")")
+    for stop in stops:
+        for passes in (["squash_choice", "skip"], ["squash_choice", "skip", "unroll"],
+                       ["inline silent", "squash_choice", "skip"], ["squash_choice", "inline silent", "skip"],
+                       ["inline built-in", "squash_choice", "skip"]):
+            for mod in ("@", "$", ""):
+                for sdef in ('stop = { ^"b" | "ab" }', 'stop = _{ ^"b" | "ab" }'):
+                    g = f'start = {{ "a"? ~ body ~ ANY* }}\nbody = {mod}{{ (!{stop} ~ ANY)* }}\n{sdef}\n'
+                    cases.append({"family": "OPT", "label": f"skip after squash / passes {passes}", "grammar": g,
+                                  "rules": ["start", "body"], "alphabet": "abAB", "maxlen": 3, "starts": "zero",
+                                  "passes": passes})
+    return cases
+
+
 def skip_name_cases() -> list[dict]:
     """Deterministic: a grammar rule that happens to be called SKIP (the name the optimizer gives its fused trivia
     rule) under every trivia configuration: it must stay an ordinary rule — never matched implicitly, never replaced."""
